@@ -103,6 +103,45 @@ def run_cqd(case):
         return Failure("oracle", f"[C06] cqd_score depends on the history: {res.scores} vs {res2.scores}")
     if res.mean != np.mean(res.scores):
         return Failure("oracle", "[C06] cqd mean is not the mean of the per-iteration scores")
+    # oracle: the defining formula evaluated directly on the current elites (exact rationals for L1 / L-infinity)
+    objs = [F(float(o)) for o in d["objective"]]
+    meas = [[F(float(x)) for x in m] for m in d["measures"]]
+    span = F(obj_max) - F(obj_min)
+    dmax = F(c["dist_max"])
+
+    def dist(a, b):
+        if ordv == 1:
+            return sum(abs(x - y) for x, y in zip(a, b))
+        if ordv == np.inf:
+            return max(abs(x - y) for x, y in zip(a, b))
+        return None
+
+    if ordv != 2:
+        for it, pts in enumerate(c["targets"]):
+            want = F(0)
+            for pen in [F(float(x)) for x in pens]:
+                for pt in pts:
+                    t = [F(x) for x in pt]
+                    want += max(o / span - pen * dist(m, t) / dmax for o, m in zip(objs, meas))
+            got = F(float(res.scores[it]))
+            if abs(got - want) > F(1, 2**36) * max(1, abs(want)):
+                return Failure("oracle", f"[C06] cqd_score iteration {it}: {float(got)!r} but the formula sum over penalties "
+                               f"and targets of max over current elites (objective/span - penalty*dist/dist_max) gives "
+                               f"{float(want)!r}")
+    # variants: integer `penalties` (linspace) and integer `target_points` (drawn by the archive, reported back)
+    res3 = arch.cqd_score(2, 3, 3, obj_min, obj_max, dist_max=float(F(c["dist_max"])), dist_ord=ordv)
+    if list(res3.penalties) != [0.0, 0.5, 1.0] or np.asarray(res3.target_points).shape != (2, 3, len(case["lo"])):
+        return Failure("oracle", f"[C06] cqd_score(penalties=3, target_points=3): penalties {res3.penalties}, "
+                       f"target shape {np.asarray(res3.target_points).shape}")
+    for it in range(2):
+        want = 0.0
+        for pen in res3.penalties:
+            for pt in res3.target_points[it]:
+                dd = np.linalg.norm(d["measures"] - pt, ord=ordv, axis=1)
+                want += float(np.max(d["objective"] / (obj_max - obj_min) - pen * dd / float(F(c["dist_max"]))))
+        if abs(res3.scores[it] - want) > 1e-9 * max(1.0, abs(want)):
+            return Failure("oracle", f"[C06] cqd_score with drawn target points, iteration {it}: {res3.scores[it]!r} but the "
+                           f"formula on the reported target points gives {want!r}")
     # model
     drv = Driver("cqd")
     try:
